@@ -572,6 +572,21 @@ func (x *Exec) gMain(g *G) {
 		}
 		switch r := r.(type) {
 		case pathEnd:
+			if r.kind == "cm-blocked" && x.cm != nil && x.cm.rp != nil && g.id != 0 {
+				// schedule replay: this thread is not meant to get further; the others go on
+				g.done = true
+				func() {
+					defer func() {
+						if r2 := recover(); r2 != nil {
+							if pe2, ok := r2.(pathEnd); ok {
+								x.finish(pe2)
+							}
+						}
+					}()
+					x.schedule(g)
+				}()
+				return
+			}
 			x.finish(r)
 		case targetPanic:
 			msg := "panic"
